@@ -108,6 +108,14 @@ public:
       std::string const format_part_2 =
         _time_format.substr(specifier_end, _time_format.length() - specifier_end);
 
+      if ((format_part_2.find(specifier_name[AdditionalSpecifier::Qms]) != std::string::npos) ||
+          (format_part_2.find(specifier_name[AdditionalSpecifier::Qus]) != std::string::npos) ||
+          (format_part_2.find(specifier_name[AdditionalSpecifier::Qns]) != std::string::npos))
+      {
+        // the searches above only see the first occurrence of each specifier
+        QUILL_THROW(QuillError{"format specifiers %Qms, %Qus and %Qns can be used only once"});
+      }
+
       if (!format_part_2.empty())
       {
         _strftime_part_2.init(format_part_2, _timestamp_timezone);
